@@ -87,6 +87,28 @@ def run_c08(rep):
                          oracle_names=["oracle_c08"], known_classes=known_classes("C08"), label="c08")
 
 
+def run_c15(rep):
+    import fam_fault
+    n, ops, per = sizes(rep, (120, 12, 6), (1500, 30, 12))
+    fam_fault.fault_family(rep, n, ops, per, known_classes=known_classes("C15"))
+    # model tie + undo-after-fault on stories that fail at random points
+    n2, ops2 = sizes(rep, (300, 14), (4000, 40))
+    families.play_family(rep, n2, ops2, features=dict(faults=0.3, stmt_faults=0.25, hooks=0.4, params=0.5, loops=0.5),
+                         weights=dict(choose=60, undo=15, redo=6, goto=6, read=6, bad=3),
+                         oracle_names=["oracle_c04", "oracle_c07"], known_classes=known_classes("C15") | known_classes("C07"),
+                         label="c15-play")
+
+
+def run_c05(rep):
+    import fam_saveload
+    n, ops, pts = sizes(rep, (200, 14, 3), (3000, 40, 6))
+    fam_saveload.saveload_family(rep, n, ops, pts, known_classes=known_classes("C05"))
+    n2, ops2 = sizes(rep, (300, 16), (4000, 40))
+    families.play_family(rep, n2, ops2, features=dict(hooks=0.5, join=0.4, params=0.3),
+                         weights=dict(choose=50, save=12, load=8, fresh=8, loadbad=4, undo=6, redo=3, goto=4, read=5),
+                         oracle_names=["oracle_c04"], known_classes=known_classes("C05"), label="c05-play")
+
+
 # ------------------------------------------------------------------------------------------------ registry
 
 PROPS = {
@@ -157,6 +179,37 @@ PROPS = {
                    "was entered) and joinChoice_advances (a join choice moves exactly that passage from k to k+1), for every "
                    "story and Sem; block-only-once and section text by oracle + correspondence",
     ),
+    "C15": dict(
+        theorems=[T + "expr_contained", T + "expr_fault_marker", T + "branch_cond_fault_skips", T + "choice_cond_fault_hides",
+                  T + "stmt_fault_raises", T + "block_fault_raises", T + "render_stmt_fault_propagates", T + "execCommands_fault",
+                  T + "renderToks_errOk", T + "step_scopes", T + "undo_choose", T + "usable_after_failed_goto"],
+        run=run_c15,
+        rule="fault injection on the real engine: for fault-free generated stories and recorded histories, one author-code "
+             "site (statement, block, argument list, default, display expression, branch/choice/inline condition, loop "
+             "collection, render arguments) of the compiled story is made to fail and the history replayed (metamorphic "
+             "oracle, see harness/fam_fault.py); plus a play family with random faults checked against the model and the "
+             "undo oracle; distinct by hash of (source, ops, site)",
+        level_text="proof (for every Sem, i.e. every way author code can fail): a display expression never raises nor "
+                   "changes state and a failing one yields an {ERROR marker; a failing branch/choice condition skips/hides; "
+                   "a failing statement/block makes the render and the passage execution raise RuntimeError "
+                   "(render_stmt_fault_propagates, execCommands_fault), render errors are only Runtime/ValueError "
+                   "(renderToks_errOk); no scope is left (step_scopes) and one undo restores the pre-choice situation "
+                   "(undo_choose, which holds for choices that raised)",
+    ),
+    "C05": dict(
+        theorems=[T + "save_noop", T + "load_rejects_malformed", T + "load_rejects_unknown_passage", T + "load_clears_history",
+                  T + "load_installs_used", T + "save_doc", T + "read_noop", T + "goto_no_hookRun"],
+        run=run_c05,
+        rule="save after a random call of generated histories (position, variables, used choices, hooks, join progress "
+             "all exercised), JSON text round trip, load into a fresh engine, compare the whole situation and up to 8 "
+             "continuation calls with the original session; one malformed document per save point against the running "
+             "game; plus a play family with save/load/fresh-load ops against the model; distinct by hash of (source, ops)",
+        level_text="proof: save is effect-free (save_noop/read_noop), malformed documents and unknown passages are rejected "
+                   "with ValueError with the whole engine state unchanged, an accepted load clears both histories whether "
+                   "the re-entry succeeds or raises, installs the document's used choices, and runs no hooks; the "
+                   "'continues exactly like the original' clause is false of the code (recorded finding C05-F1: load "
+                   "re-enters the saved passage) and is decided by the oracle, which accepts exactly that deviation",
+    ),
 }
 
 
@@ -174,7 +227,7 @@ def known_classes(prop):
     return {f["cls"] for f in framework.load_findings(prop) if f["cls"]}
 
 
-ORACLES_FOR = {"C02": ["oracle_c02"], "C03": ["oracle_c03"], "C04": ["oracle_c04"], "C07": ["oracle_c07"], "C08": ["oracle_c08"], "C09": ["oracle_c09"], "C10": ["oracle_c10"]}
+ORACLES_FOR = {"C02": ["oracle_c02"], "C03": ["oracle_c03"], "C04": ["oracle_c04"], "C07": ["oracle_c07"], "C08": ["oracle_c08"], "C09": ["oracle_c09"], "C10": ["oracle_c10"], "C15": ["oracle_c04", "oracle_c07"], "C05": ["oracle_c04"]}
 
 
 def replay_findings(prop, rep):
@@ -204,6 +257,16 @@ def witness_fails(wj):
             return None
         c["cycles"] = False
         fs = getattr(oracles, wj["oracle"])(c)
+        return any(f["cls"] == wj.get("cls") for f in fs)
+    if fam == "saveload":
+        import fam_saveload, random
+        c = corr_play.run_fixed(wj["source"], wj["ops"])
+        if "compile_error" in c:
+            return None
+        class R:   # deterministic "rng": always the witness's save point, a harmless malformed doc
+            def randrange(self, n): return wj.get("save_after", 0)
+            def choice(self, xs): return xs[0]
+        fs, _ = fam_saveload.check_case(c, R(), 1)
         return any(f["cls"] == wj.get("cls") for f in fs)
     return None
 
